@@ -16,7 +16,7 @@ const OFFSETS: [&str; 4] = ["no-time-passing", "boundary-1", "boundary", "bounda
 const KINDS: [&str; 4] = ["normal", "bypass-operator", "bypass-no-operator", "normal-bad-proof"];
 
 pub fn run(ctx: &Ctx, rep: &mut Report) {
-    let delays: Vec<u64> = if ctx.thorough() { vec![0, 1, 2, 100, 86_400, 1 << 63] } else { vec![0, 1, 100] };
+    let delays: Vec<u64> = if ctx.thorough() { vec![0, 1, 2, 100, 86_400, 1 << 63, u64::MAX - 1, u64::MAX] } else { vec![0, 1, 100, u64::MAX] };
     let len: u32 = if ctx.thorough() { 4 } else { 3 };
     let seqs = 16u64.pow(len);
     let total = delays.len() as u64 * seqs;
